@@ -7,7 +7,10 @@
 (*   - an individual signature is the pair (signer, payload), written as   *)
 (*     the record [by, k, s, h]; payload = (vote kind, slot, block hash);  *)
 (*     `by` is a validator index of the epoch, or Foreign (a key that is   *)
-(*     not in the epoch), or Garbled (bytes that are nobody's signature);  *)
+(*     not in the epoch), or Garbled (bytes that are nobody's signature),  *)
+(*     or Torsion (a signature with a curve point outside the signature    *)
+(*     group added to it: a different byte string that is nobody's         *)
+(*     signature although the pairing equation cannot tell);               *)
 (*   - an aggregate is a BAG of individual signatures (`bag` = the set of  *)
 (*     distinct members, `dup` = the members that are included twice) plus *)
 (*     a signer bitmask (`len` bits, `mask` = positions set);              *)
@@ -63,6 +66,9 @@ CertHasHash(k) == k \in {"notar", "nf", "ff"}
 
 Foreign == -1     \* a well-formed signature by a key outside the epoch
 Garbled == -2     \* altered signature bytes
+Torsion == -3     \* signature bytes altered by adding a low-order point outside the signature group:
+                  \* as a bag member, "the aggregate plus that point"; as a vote's signature, "the
+                  \* named signer's signature over this payload plus that point"
 
 \* VotePayload (vote.rs l.26): the signed meaning of a vote
 Payload(k, s, h) == [k |-> k, s |-> s, h |-> IF VoteHasHash(k) THEN h ELSE NoHash]
@@ -107,7 +113,7 @@ Threshold(k) == IF k = "ff" THEN Strong ELSE Quorum
 WellFormedHalf(hf) ==
   /\ hf.mask \subseteq 0..(hf.len - 1)
   /\ hf.dup \subseteq hf.bag
-  /\ \A sg \in hf.bag : sg.by \in Vals \cup {Foreign, Garbled}   \* signatures that can exist
+  /\ \A sg \in hf.bag : sg.by \in Vals \cup {Foreign, Garbled, Torsion}   \* signatures that can exist
   /\ ~hf.p => hf = NoHalf
 
 WellFormedCert(c) ==
